@@ -157,6 +157,8 @@ class Verifier:
                             {'exception': val.cls_name, 'msg': val.msg, 'allowed': allowed})
                 else:
                     n_ok += 1
+                    ex.goal('%s/raises-only-allowed[%s]' % (name, val.cls_name), s, True,
+                            {'exception': val.cls_name, 'allowed': allowed})
                 continue
             if oc not in (Outcome.RET, Outcome.NEXT):
                 raise OutsideSubset('loop control leaves function')
@@ -202,7 +204,8 @@ class Verifier:
         self.stats['paths'] += ex.feasible_paths
         self.stats['goals'] += len(ex.goals)
         obls.append(Obl('%s/feasible-paths>0' % oid, qualname, kind='structural', backend='structural',
-                        status=DISCHARGED if ex.feasible_paths > 0 and getattr(ex, 'canary_refuted', True)
+                        status=DISCHARGED if ex.feasible_paths > 0 and (
+                            getattr(ex, 'canary_refuted', True) != bool(getattr(ex.contract, 'no_normal_exit', False)))
                         else UNDECIDED,
                         detail={'feasible_paths': ex.feasible_paths, 'goals': len(ex.goals),
                                 'canary_ensures_False_refuted': getattr(ex, 'canary_refuted', None),
